@@ -414,8 +414,20 @@ def replay(chk, path):
     lines = [l for l in open(path).read().splitlines() if l.strip()]
     first = json.loads(lines[0])
     nshards = first.get("d", {}).get("nshards", 1)
-    if any('"ev":"free"' in l or '"ev":"hang"' in l for l in lines):
+    if any('"ev":"free"' in l or '"ev":"clonefree"' in l or '"ev":"hang"' in l for l in lines):
         vlib.validate_concat(chk, SPEC, "MCTraceRegistry", trace_cfg(nshards), path, "stored real-parallel trial " + path)
+        return
+    staged = "clone" if any('"ev":"op.clone.pre"' in l for l in lines) else "held" if any('"ev":"hold.enter"' in l for l in lines) else None
+    if staged:
+        # controlled schedules generated by the driver from the seed (not a call list): the whole stage is run again at
+        # the same shard count
+        cpus = None
+        for pname, c in pinnings():
+            if {"1cpu": 1, "2cpu": 2, "4cpu": 4}.get(pname) == nshards:
+                cpus = c
+        tr = chk.path("replay_%s.ndjson" % staged)
+        s = run_harness(chk, [staged, "--runs", 60 if staged == "clone" else 48, "--out", tr], cpus, "replay of stage " + staged)
+        validate(chk, tr, s, "re-executed %s stage (%s)" % (staged, path))
         return
     # a scheduled run: the stored lines say what the code did then; what counts is what it does now
     progs = chk.path("replay_programs.ndjson")
